@@ -244,13 +244,14 @@ impl Run {
 
         // replay files for fresh violations (first few per class)
         let mut exit = 0;
+        let mut printed = 0u32;
         let mut per_class: BTreeMap<&str, u32> = BTreeMap::new();
         let mut classes: BTreeMap<String, u64> = BTreeMap::new();
         for v in &fresh {
             *classes.entry(v.class.clone()).or_insert(0) += 1;
             let n = per_class.entry(v.class.as_str()).or_insert(0);
             *n += 1;
-            if *n > 3 {
+            if *n > 2 {
                 continue;
             }
             let dir = root.join("replays").join(&self.property);
@@ -263,7 +264,8 @@ impl Run {
                 "replay": format!("bin/vcheck replay {}", path.display()),
             });
             fs::write(&path, serde_json::to_string_pretty(&rec).unwrap()).ok();
-            if !self.bless {
+            printed += 1;
+            if !self.bless && printed <= 24 {
                 println!("VIOLATION property={} replay={}", self.property, path.display());
                 println!(
                     "  class={} oracle={} input={} expected={} observed={}",
